@@ -128,4 +128,41 @@ def nextUB (prev : UB) (freshPatch : Nat) : UB :=
 def follows (p prev : UB) : Bool :=
   p.record == prev.record && decide (prev.index < p.index) && p.prev == some prev.patch
 
+/-- adjacent blocks of a chain (oldest first) satisfy the conditions `IH5Record._open` checks
+with `_check_ublock` (record uuid, growing index, `prev_patch` link) -/
+def coherent : List UB → Bool
+  | [] => true
+  | [_] => true
+  | a :: b :: rest => follows b a && coherent (b :: rest)
+
+/-! ## merging a run of containers (a file list opened with `allow_baseless=True`) in place -/
+
+/-- replace the containers `i..j` (0 = oldest) of `r` by the merged container of that run, the
+way `IH5Record([p_i .. p_j], allow_baseless=True).merge_files(t)` followed by opening
+`[p_0 .. p_(i-1), t, p_(j+1) ..]` does; `none` when `i..j` is not a run of `r`.
+(Records are lists of containers, newest first.) -/
+def squashRun (r : Rec V) (i j : Nat) : Option (Except Err (Rec V)) :=
+  let old := r.reverse
+  if i ≤ j ∧ j < old.length then
+    let run := (old.take (j + 1)).drop i
+    some (match mergeCont run.reverse with
+      | .ok m => .ok ((old.take i ++ m.reverse ++ old.drop (j + 1)).reverse)
+      | .error e => .error e)
+  else none
+
+/-! ## the refusal guard of `merge_files` -/
+
+inductive Refusal
+  | stub      -- "Cannot merge, files contain a stub!" (`IH5MFRecord.merge_files`)
+  | writable  -- "Cannot merge, please commit or discard your changes!" (`IH5Record.merge_files`)
+deriving DecidableEq, Repr
+
+/-- `IH5MFRecord.merge_files` scans the user blocks of ALL containers of the opened set for the
+stub mark (`any(map(is_stub, self.ih5_meta))`), then `IH5Record.merge_files` refuses while the
+newest container is uncommitted. `stubFlags`: one flag per container, oldest first. -/
+def mergeGuard (stubFlags : List Bool) (hasWritable : Bool) : Except Refusal Unit :=
+  if stubFlags.any id then .error .stub
+  else if hasWritable then .error .writable
+  else .ok ()
+
 end MetadorModel.Merge
